@@ -275,6 +275,12 @@ func (f *frame) stdlib(i *ssa.Call, full string, args []T, st *State, pc string)
 							g.s.lines = append(g.s.lines, decl)
 						}
 						r := g.s.def(i.Name(), T{"(mk false " + app(fn, as...) + ")", "NB"})
+						if constant.StringVal(c.Value) == "%s-%s" && n == 2 {
+							// two texts around a dash (T-STD): the cache-key format of plan.go
+							tx := func(a string) string { return "(ite ((_ is AStr) " + a + ") (val (a.s " + a + ")) (val (a.y " + a + ")))" }
+							isT := func(a string) string { return "(or ((_ is AStr) " + a + ") ((_ is ABytes) " + a + "))" }
+							g.s.assumeUnder(pc, imp(and(isT(as[0]), isT(as[1])), eq("(val "+r.S+")", "(cat (cat "+tx(as[0])+" "+g.s.lit("-")+") "+tx(as[1])+")")))
+						}
 						if constant.StringVal(c.Value) == "%v" && n == 1 {
 							// %v of a float is its shortest round-tripping rendering ftoa (T-STD; ftoa is injective)
 							g.s.assumeUnder(pc, imp("((_ is AFlt) "+as[0]+")", eq("(val "+r.S+")", "(ftoa (a.f "+as[0]+"))")))
